@@ -192,7 +192,7 @@ Fixpoint parse_lines (sep : N) (wt wf : str) (lines : list str) : sres (list str
   end.
 
 Definition read_csv (sep : N) (wt wf : str) (s : str) : sres sctx :=
-  match split_char NL (strip s) with
+  match split_char NL (strip_c NL s) with     (* f.read().strip('\n').split('\n') *)
   | [] => SErr EOther
   | header :: body =>
       let attr_names := tl (split_char sep header) in
